@@ -97,6 +97,27 @@ def _z3_check(smt2: str, timeout_ms: int) -> tuple[str, dict, str]:
     return 'unknown', {}, s.reason_unknown()
 
 
+def _z3cli_check(smt2: str, timeout_ms: int) -> tuple[str, dict, str]:
+    exe = '/usr/bin/z3'
+    if not os.path.exists(exe):
+        return 'unknown', {}, 'z3 cli not installed'
+    with tempfile.NamedTemporaryFile('w', suffix='.smt2', delete=False) as f:
+        f.write(smt2)
+        fname = f.name
+    try:
+        p = subprocess.run([exe, f'-T:{max(1, timeout_ms // 1000)}', fname], capture_output=True, text=True,
+                           timeout=timeout_ms / 1000 + 5)
+        first = (p.stdout.strip().splitlines() or [''])[0]
+        if first == 'unsat':
+            return 'unsat', {}, ''
+        # a `sat` from the old binary is not used (no model extraction here): let the other stages answer
+        return 'unknown', {}, first[:100]
+    except subprocess.TimeoutExpired:
+        return 'unknown', {}, 'z3 cli timeout'
+    finally:
+        os.unlink(fname)
+
+
 def _cvc5_check(smt2: str, timeout_ms: int) -> tuple[str, dict, str]:
     exe = '/usr/bin/cvc5'
     if not os.path.exists(exe):
@@ -120,13 +141,22 @@ def _cvc5_check(smt2: str, timeout_ms: int) -> tuple[str, dict, str]:
 
 
 def _work(job):
-    idx, smt2, timeout_ms, use_cvc5 = job
+    idx, smt2, timeout_ms, use_cvc5 = job[:4]
     t0 = time.time()
     # Staged: a short z3 attempt, then cvc5 (much stronger on strings/sequences), then z3 with the full budget.
     # Verdicts therefore do not depend on z3's seq solver finishing just inside its budget.
+    is_cover = '(check-sat)' in smt2 and job[4] if len(job) > 4 else False
     stages = [('z3', min(timeout_ms, 3000))]
-    if use_cvc5:
+    if use_cvc5 and not is_cover:
+        # the Debian z3 4.8.12 binary instantiates quantifiers over nested arrays far more eagerly than 5.1:
+        # try it first on quantified goals
+        if 'forall' in smt2:
+            stages.insert(0, ('z3old', min(timeout_ms, 20000)))
+        else:
+            stages.append(('z3old', min(timeout_ms, 20000)))
         stages.append(('cvc5', timeout_ms))
+    elif use_cvc5 and 'forall' not in smt2:
+        stages.append(('cvc5', timeout_ms))      # (covers under quantifiers stay inconclusive: do not wait for them)
     if timeout_ms > 3000:
         stages.append(('z3', timeout_ms))
     st, model, reason, backend = 'unknown', {}, '', ''
@@ -136,6 +166,9 @@ def _work(job):
             if solver == 'z3':
                 st, model, reason = _z3_check(smt2, budget)
                 backend = 'z3-' + z3.get_version_string()
+            elif solver == 'z3old':
+                st, model, reason = _z3cli_check(smt2, budget)
+                backend = 'z3-4.8.12(cli)'
             else:
                 st, model, reason = _cvc5_check(smt2, budget)
                 backend = 'cvc5-1.0.3'
@@ -181,7 +214,8 @@ def discharge(obligations: list, timeout_ms: int = 10000, jobs: int = 0, use_cvc
         else:
             smt2 = to_smt2(ob.pc, ob.goal)
         # reachability covers only need one satisfiable instance per name: keep their budget small
-        jobs_list.append((i, smt2, timeout_ms if ob.kind != 'cover' else min(timeout_ms, 5000), use_cvc5))
+        jobs_list.append((i, smt2, timeout_ms if ob.kind != 'cover' else min(timeout_ms, 5000), use_cvc5,
+                          ob.kind == 'cover'))
     results: list[Optional[Result]] = [None] * len(obligations)
     njobs = jobs or min(16, os.cpu_count() or 4)
     if len(jobs_list) <= 1 or njobs == 1:
